@@ -329,7 +329,13 @@ func (c *decoratorController) processNextWorkItem() bool {
 func (c *decoratorController) enqueueParentObject(obj interface{}) {
 	// If the parent doesn't match our selector, and it doesn't have our
 	// finalizer, we don't care about it.
-	if parent, ok := obj.(*unstructured.Unstructured); ok {
+	// A delete may be delivered as a tombstone; the filter applies to the
+	// object it carries.
+	filterObj := obj
+	if tombstone, ok := obj.(cache.DeletedFinalStateUnknown); ok {
+		filterObj = tombstone.Obj
+	}
+	if parent, ok := filterObj.(*unstructured.Unstructured); ok {
 		if !c.parentSelector.Matches(parent) && !controllerutil.ContainsFinalizer(parent, c.finalizer.Name) {
 			return
 		}
@@ -784,7 +790,12 @@ func makeUpdateStrategyMap(resources *dynamicdiscovery.ResourceMap, dc *v1alpha1
 func parentQueueKey(obj interface{}) (string, error) {
 	switch o := obj.(type) {
 	case cache.DeletedFinalStateUnknown:
-		return o.Key, nil
+		// The tombstone's own key is namespace/name, which splitParentQueueKey
+		// cannot parse; build our key from the object the tombstone carries.
+		if parent, ok := o.Obj.(*unstructured.Unstructured); ok {
+			return parentQueueKey(parent)
+		}
+		return "", fmt.Errorf("tombstone contained object that is not *unstructured.Unstructured: %#v", o.Obj)
 	case cache.ExplicitKey:
 		return string(o), nil
 	case *unstructured.Unstructured:
